@@ -6,19 +6,21 @@ export GOFLAGS=-mod=mod GOPROXY=off GOSUMDB=off GOTOOLCHAIN=local
 cd "$WT" || exit 3
 git checkout -q -- . ; 
 DEMO=$(ls "$OUT"/demo/*_test.go | head -1)
-TESTFN=$(grep -o "^func Test[A-Za-z0-9_]*" "$DEMO" | head -1 | sed 's/func //')
-DEST=tests/$(basename "$DEMO")
-cp "$DEMO" "$DEST"
-run_demo() { timeout 900 go test -vet=off -count=1 -run "^${TESTFN}\$" ./tests/ > /tmp/demo-$ID-$1.txt 2>&1; echo $?; }
+PKG=$(grep -m1 "^package " "$DEMO" | awk '{print $2}')
+case "$PKG" in minter) PDIR=coreV2/minter;; tests) PDIR=tests;; *) PDIR=$(grep -rl --include=*.go "^package $PKG\$" . | grep -v OUT | head -1 | xargs dirname);; esac
+TESTFN=$(grep -ho "^func Test[A-Za-z0-9_]*" "$OUT"/demo/*_test.go | sed 's/func //' | paste -sd'|')
+DEST=""
+for f in "$OUT"/demo/*_test.go; do cp "$f" "$PDIR/"; DEST="$DEST $PDIR/$(basename $f)"; done
+run_demo() { timeout 900 go test -tags verif -vet=off -count=1 -run "^(${TESTFN})\$" ./$PDIR/ > /tmp/demo-$ID-$1.txt 2>&1; echo $?; }
 CLEAN=$(run_demo clean)
-git apply "$OUT/patch.diff" || { echo "patch failed"; rm -f "$DEST"; exit 3; }
+git apply "$OUT/patch.diff" || { echo "patch failed"; rm -f $DEST; exit 3; }
 BUILD=0; go build ./... > /tmp/build-$ID.txt 2>&1 || BUILD=1
 MUT=$(run_demo mut)
 PKGS=$(git diff --name-only | grep '\.go$' | xargs -n1 dirname | sort -u | sed 's#^#./#')
 timeout 1500 go test -vet=off -count=1 $PKGS 2>&1 | grep -E "^(ok|FAIL|--- FAIL)" | sed "s/ ([0-9.]*s)//; s/\t[0-9.]*s$//" | sort > /tmp/pk-$ID-mut.txt
 git checkout -q -- .
 timeout 1500 go test -vet=off -count=1 $PKGS 2>&1 | grep -E "^(ok|FAIL|--- FAIL)" | sed "s/ ([0-9.]*s)//; s/\t[0-9.]*s$//" | sort > /tmp/pk-$ID-clean.txt
-rm -f "$DEST"
+rm -f $DEST
 SAME=differs; cmp -s /tmp/pk-$ID-mut.txt /tmp/pk-$ID-clean.txt && SAME=same
 echo "seed $ID: demo clean exit=$CLEAN (want 0), demo mutated exit=$MUT (want !=0), build=$BUILD (want 0), touched-package test outcomes: $SAME; packages: $PKGS"
 mkdir -p /verif/seeded/$ID && cp "$OUT/patch.diff" /verif/seeded/$ID/ && cp -r "$OUT/demo" /verif/seeded/$ID/ && cp "$OUT/README.md" /verif/seeded/$ID/ 2>/dev/null
